@@ -451,6 +451,7 @@ def run_check(pid, tier, seed, nruns=None, workers=None):
         nruns = int(os.environ.get("VERIF_RUNS", "0")) or budget["runs"]
     workers = workers or workers_default()
     sample_mod = 1 if tier == "quick" else 16
+    os.environ["EGSIM_TIER"] = tier
     print(f"VERIF_SEED={seed} property={pid} tier={tier} runs={nruns} workers={workers}")
     sys.stdout.flush()
     merged = run_parallel(
